@@ -891,4 +891,54 @@ theorem visited_of_no_churn (script : Aid → List Action) (arg : Nat) (w : Worl
       exact alive_congr rfl rfl rfl x
     rw [ih _ (fun x hx => by rw [hinv]; exact hal x (List.mem_cons_of_mem _ hx))]
 
+/-! ### activations whose callbacks make no set edits leave every program-made set as it is -/
+
+theorem removeAgent_sets (w : World) (b : Aid) : (removeAgent w b).sets = w.sets := by
+  cases hi : w.info[b]? with
+  | none => rw [removeAgent_none hi]
+  | some i =>
+    cases hr : w.regs[i.model]? with
+    | none => rw [removeAgent_noreg hi hr]
+    | some r => rw [removeAgent_some hi hr]
+
+theorem createAgent_sets (w : World) (m ty hold x) : (createAgent w m ty hold x).sets = w.sets := by
+  unfold createAgent; split <;> rfl
+
+theorem createN_sets (w : World) (m ty hold) (xs : List Payload) : (createN w m ty hold xs).sets = w.sets := by
+  unfold createN
+  induction xs generalizing w with
+  | nil => rfl
+  | cons x xs ih => simp only [List.foldl_cons]; rw [ih, createAgent_sets]
+
+theorem runAction_sets (self : Aid) (w : World) (act : Action) (h : act.isSetEdit = false) :
+    (runAction self w act).sets = w.sets := by
+  cases act with
+  | rmSelf => exact removeAgent_sets w self
+  | rm b => exact removeAgent_sets w b
+  | create m ty n hold => exact createN_sets w m ty hold _
+  | unhold b => rfl
+  | addTo k b => simp [Action.isSetEdit] at h
+  | discardFrom k b => simp [Action.isSetEdit] at h
+
+theorem walk_sets (script : Aid → List Action) (hne : ∀ a, ∀ act ∈ script a, act.isSetEdit = false) (arg : Nat) (w : World)
+    (refs : List Aid) : (walk script arg w refs).sets = w.sets := by
+  induction refs generalizing w with
+  | nil => rfl
+  | cons a refs ih =>
+    rw [walk_cons, ih]
+    unfold turn
+    split
+    · unfold invoke
+      have hsa := hne a
+      generalize script a = acts at hsa
+      have : ({ w with log := w.log ++ [(a, arg)] } : World).sets = w.sets := rfl
+      rw [← this]
+      generalize ({ w with log := w.log ++ [(a, arg)] } : World) = w'
+      induction acts generalizing w' with
+      | nil => rfl
+      | cons act acts ih2 =>
+        rw [List.foldl_cons, ih2 (fun x hx => hsa x (List.mem_cons_of_mem _ hx)),
+          runAction_sets a w' act (hsa act List.mem_cons_self)]
+    · rfl
+
 end Mesa.Agents
